@@ -766,6 +766,18 @@ impl TypeLayout {
         Self::Optional(Some(Box::new(Cow::Owned(self))))
     }
 
+    /// A generic placeholder that has been bound (`T` of `map`, once the callback is known) stands for a
+    /// concrete type: a value of that type can be called / indexed like any other.
+    pub fn resolve_bound_generic(&self) -> Cow<'_, Self> {
+        if let Self::Generic(generic) = self {
+            if let Some(ty) = generic.try_get_lock() {
+                return Cow::Owned(ty.resolve_bound_generic().into_owned());
+            }
+        }
+
+        Cow::Borrowed(self)
+    }
+
     pub fn list_of(self) -> Self {
         Self::List(ListType::Open(Box::new(Cow::Owned(self))))
     }
@@ -1222,7 +1234,8 @@ impl TypeLayout {
                     match property_name {
                         "remove" => Some(new_assoc_function!(
                             vec![Cow::Owned(TypeLayout::int())],
-                            list_type.into_owned().into()
+                            // the element handed out, like the one `[i]` reads
+                            list_type.resolve_bound_generic().into_owned().into()
                         )),
                         "reverse" => Some(new_assoc_function!(vec![], @void)),
                         "push" => Some(new_assoc_function!(vec![list_type], @void)),
@@ -1770,7 +1783,10 @@ impl TypeLayout {
         match index_as_usize {
             ValToUsize::Ok(index_as_usize) => match me {
                 Self::List(list) => {
-                    return Ok(Cow::Borrowed(list.get_type_at_known_index(index_as_usize)?));
+                    // an element of `[T...]` (the result of `map`) is a value of the type `T` is bound to
+                    return Ok(list
+                        .get_type_at_known_index(index_as_usize)?
+                        .resolve_bound_generic());
                 }
                 _ => bail!("not indexable"),
             },
@@ -1780,7 +1796,7 @@ impl TypeLayout {
                 usize::MAX
             ),
             ValToUsize::NotConstexpr => match me {
-                TypeLayout::List(ListType::Open(ty)) => return Ok(Cow::Borrowed(ty.as_ref())),
+                TypeLayout::List(ListType::Open(ty)) => return Ok(ty.resolve_bound_generic()),
                 TypeLayout::List(ListType::Mixed(ty)) => bail!("Indexing into a mixed type list ({:?}) requires that the index be evaluable at compile time", ty.iter().map(|x| x.to_string()).collect::<Vec<_>>()),
                 _ => todo!()
             },
